@@ -522,6 +522,7 @@ class Contract:
         self.never_returns = ns.get("never_returns", False)
         self.new_object = ns.get("new_object")
         self.emits_after = ns.get("emits_after")  # (c, ctx, outcome, value, **views): events appended once the outcome is known
+        self.published = ns.get("published")  # (c, **params) -> {label: Bool}: invariant of state other threads read, checked after EVERY store
         self.body_key = ns.get("body_key")  # this contract is proved against the body of that function, while callers use the function's own (interface) contract
         self.announce = ns.get("announce", False)  # call sites of this function append a ghost `call` event (key, receiver, first argument)
         self.exact_raises = ns.get("exact_raises", False)  # a library raises exactly the named class, not an unknown subclass
